@@ -503,7 +503,7 @@ def run_shard(ctx, args):
         judge_ann(ctx, ctrl, sd, cd, layers, 6)
         # history of the factory's cache: neighbouring architectures that
         # differ only in the order of layers / of the dimensions
-        if len(set(layers)) > 1:
+        if len(set(layers)) > 1 and n_params(sd, cd, layers[::-1]) <= 1000:
             rl = list(layers[::-1])
             judge_ann(ctx, make_ann(sd, cd, list(rl)), sd, cd, rl, 2)
             ctx.count("ann_reversed_layer_order_pairs")
@@ -520,7 +520,7 @@ def run_shard(ctx, args):
             judge_ann(ctx, make_ann(sd, cd, list(first)), sd, cd, first, 1)
             judge_ann(ctx, make_ann(sd, cd, list(second)), sd, cd, second, 2)
             ctx.count("ann_same_digits_pairs")
-        if sd != cd:
+        if sd != cd and n_params(max(cd, 2), sd, layers) <= 1000:
             judge_ann(ctx, make_ann(cd if cd >= 2 else 2, sd, list(layers)),
                       cd if cd >= 2 else 2, sd, layers, 2)
             ctx.count("ann_swapped_dimension_pairs")
@@ -569,6 +569,8 @@ def c13_corpus(r, rng):
     # requested first; the arrays have the sizes of the LATER request
     for _ in range(3):
         sd, cd, layers = random_arch(rng)
+        if n_params(sd + 2, cd + 3, layers) > 1000:
+            layers = [min(v, 8) for v in layers]
         make_ann(sd, cd + int(rng.integers(1, 4)), list(layers))
         make_ann(sd + int(rng.integers(1, 3)), cd, list(layers))
         ctrl2 = make_ann(sd, cd, list(layers))
